@@ -263,7 +263,7 @@ def c10(ctx):
         if r["violated"]:
             raise Infra("model-level invariant %s failed in MC_Rewrite (the rewrite rules themselves are wrong: specification problem)" % r["violated"])
     ctx.model_violation = None
-    run_tree(ctx, "tree", rng, 3 if not thorough else 5)
+    run_tree(ctx, "tree", rng, 3 if not thorough else 4)   # (5 leaves = 20 min; C01 and C06 run that)
     run_tree(ctx, "tree-sameid", rng, 3 if not thorough else 4, "sameid")
     run_tree(ctx, "tree-samestep", rng, 3 if not thorough else 4, "samestep")
     ctx.drive("trace", "sat", 1200 if thorough else 300, leaves=10)
